@@ -327,11 +327,16 @@ qb_log_target_format(int32_t target,
 	unsigned int format_buffer_idx = 0;
 	unsigned int output_buffer_idx = 0;
 	size_t cutoff;
+	size_t room;
 	uint32_t len;
 	int ralign;
+	int truncated = QB_FALSE;
 	int c;
 	struct qb_log_target *t = qb_log_target_get(target);
 
+	if (t->max_line_length == 0) {
+		return;
+	}
 	pthread_rwlock_rdlock(&_formatlock);
 	if (t->format == NULL) {
 		pthread_rwlock_unlock(&_formatlock);
@@ -342,7 +347,11 @@ qb_log_target_format(int32_t target,
 		cutoff = 0;
 		ralign = QB_FALSE;
 		if (c != '%') {
-			output_buffer[output_buffer_idx++] = c;
+			if (output_buffer_idx < t->max_line_length - 1) {
+				output_buffer[output_buffer_idx++] = c;
+			} else {
+				truncated = QB_TRUE;
+			}
 			format_buffer_idx++;
 		} else {
 			const char *p;
@@ -432,31 +441,34 @@ qb_log_target_format(int32_t target,
 				p = "";
 				break;
 			}
+			/* room >= 1: the index never passes max_line_length - 1 */
+			room = t->max_line_length - output_buffer_idx;
+			if ((cutoff ? cutoff : strlen(p)) > room - 1) {
+				truncated = QB_TRUE;
+			}
 			len = _strcpy_cutoff(output_buffer + output_buffer_idx,
-					     p, cutoff, ralign,
-					     (t->max_line_length -
-					      output_buffer_idx));
+					     p, cutoff, ralign, room);
 			output_buffer_idx += len;
-			format_buffer_idx += 1;
+			if (t->format[format_buffer_idx] != '\0') {
+				format_buffer_idx += 1;
+			}
 		}
-		if (output_buffer_idx >= t->max_line_length - 1) {
+		if (truncated) {
 			break;
 		}
 	}
 	pthread_rwlock_unlock(&_formatlock);
 
-	if (output_buffer[output_buffer_idx - 1] == '\n') {
-		output_buffer[output_buffer_idx - 1] = '\0';
-	} else {
-		output_buffer[output_buffer_idx] = '\0';
-	}
-
-	/* Indicate truncation */
-	if (t->ellipsis && output_buffer_idx >= t->max_line_length-1) {
+	if (truncated && t->ellipsis && output_buffer_idx >= 3) {
+		/* Indicate truncation */
 		output_buffer[output_buffer_idx-3] = '.';
 		output_buffer[output_buffer_idx-2] = '.';
 		output_buffer[output_buffer_idx-1] = '.';
+	} else if (output_buffer_idx > 0 &&
+		   output_buffer[output_buffer_idx - 1] == '\n') {
+		output_buffer_idx--;
 	}
+	output_buffer[output_buffer_idx] = '\0';
 }
 
 
